@@ -239,3 +239,130 @@ Proof.
       specialize (IHx exts Hn2 HGx Hbx H2 Hrest2 ltac:(lia) Hex1).
       try rewrite E2 in IHx. cbn [fst snd] in IHx. exact IHx.
 Qed.
+
+(* ------------------------------------------------------------------ the side conditions *)
+(* what an operation of the C06 alphabet does to the dirty flag *)
+Definition dirty_after (o : wop) (d : bool) : bool :=
+  match o with WWrite _ | WReadFrom _ _ | WWriteThrough _ => true | WFlush => false | _ => d end.
+
+Lemma run_op_dirty client op comp o w : Cst client op comp w -> c06_op o ->
+  28 + 4 * (len (w_buf w) + op_cost o) <= max_int -> clean w ->
+  w_dirty (snd (fst (run_op o w))) = dirty_after o (w_dirty w) /\
+  (o = WFlush -> o_err (fst (fst (run_op o w))) = None /\ o_buffered (fst (fst (run_op o w))) = 0).
+Proof.
+  intros Hc Ho Hb Hcl. destruct o as [p|data sizes|p| | |n| |xs|st o|o]; cbn [c06_op op_cost run_op dirty_after] in *; try contradiction.
+  - destruct (write_C client op comp p w Hc Ho ltac:(lia)) as (w1 & fs & Hw & _ & Hd & _).
+    rewrite Hw. cbn [fst snd]. split; [exact Hd|discriminate].
+  - destruct (read_from_C client op comp data sizes w Hc Ho ltac:(lia)) as (w1 & s' & fs & Hw & _ & Hd).
+    rewrite Hw. cbn [fst snd]. split; [exact Hd|discriminate].
+  - destruct Ho as [Hp Hl]. destruct (w_buf w) as [|b0 r0] eqn:Eb.
+    + destruct (Step_write_through client op comp p w Hc Eb Hp Hl) as (Hw & _ & Hd).
+      rewrite Hw. cbn [fst snd]. split; [exact Hd|discriminate].
+    + rewrite (write_through_notempty p w (c_err _ _ _ w Hc)) by (rewrite Eb; discriminate).
+      cbn [fst snd]. split; [|discriminate]. destruct (w_dirty w) eqn:Ed; [reflexivity|].
+      destruct (Hcl Ed) as [_ Hy]. congruence.
+  - destruct (w_buf w) as [|b0 r0] eqn:Eb.
+    + unfold flush_fragment, w_n. rewrite Eb, (c_err _ _ _ w Hc). cbn [len length N.of_nat N.eqb orb fst snd].
+      split; [reflexivity|discriminate].
+    + destruct (Step_flush_fragment client op comp w Hc) as [Hw _]; [rewrite Eb; discriminate|].
+      rewrite Hw. cbn [fst snd]. split; [reflexivity|discriminate].
+  - destruct (w_dirty w) eqn:Ed; [|destruct (w_buf w) as [|b0 r0] eqn:Eb].
+    + rewrite (flush_C client op comp w Hc (or_introl Ed)). cbn [fst snd].
+      split; [reflexivity|]. intros _. split; reflexivity.
+    + rewrite (flush_nothing w Ed Eb). cbn [fst snd]. split; [exact Ed|]. intros _.
+      cbn [observe o_err o_buffered]. split; [exact (c_err _ _ _ w Hc)|]. unfold w_n. rewrite Eb. reflexivity.
+    + destruct (Hcl Ed) as [_ Hy]. congruence.
+  - destruct (Step_grow client op comp n w Hc ltac:(lia)) as (w1 & Hg & _ & _ & _ & _ & _ & Hd1 & _).
+    rewrite Hg. cbn [fst snd]. split; [exact Hd1|discriminate].
+  - cbn [fst snd]. split; [reflexivity|discriminate].
+Qed.
+
+Lemma at_rest_iff w : clean w -> (at_rest w <-> w_dirty w = false).
+Proof.
+  intros Hcl. split; [intros (_ & H & _); exact H|]. intros Hd. destruct (Hcl Hd) as [Hf Hb]. repeat split; assumption.
+Qed.
+
+(* on the observations of the model, the side conditions of the segmentation say exactly
+   that every SetExtensions finds the writer at rest: [rest] = not dirty *)
+Lemma applies_iff : forall ops w, Good w -> clean w -> Forall seg_op ops ->
+  28 + 4 * (len (w_buf w) + ops_cost ops) <= max_int ->
+  (seg_applies (negb (w_dirty w)) (steps_of ops (fst (run_wops ops w))) = true <-> set_ext_at_rest ops w).
+Proof.
+  induction ops as [|o rest IH]; intros w HG Hcl Hops Hb.
+  { cbn. split; auto. }
+  inversion Hops as [|? ? Ho Hrest]; subst. cbn [ops_cost] in Hb.
+  assert (Hcase: c06_op o \/ bnd_op o).
+  { destruct o; cbn [seg_op c06_op bnd_op] in *; auto. }
+  destruct Hcase as [Hoc|Hx].
+  - pose proof (Good_Cst w HG) as Hc.
+    destruct (run_op_C _ _ _ o w Hc Hoc ltac:(lia)) as (o1 & w1 & Hrun & Hc1 & Hl).
+    destruct (run_op_clean _ _ _ o w Hc Hoc ltac:(lia) Hcl) as [Hcl1 _].
+    destruct (run_op_dirty _ _ _ o w Hc Hoc ltac:(lia) Hcl) as [Hd Hfl].
+    assert (Hnr: is_reset o = false) by (destruct o; cbn [c06_op] in Hoc; try contradiction; reflexivity).
+    destruct (run_op_A o w (g_inv w HG) Hnr ltac:(lia)) as (o1' & w1' & Hrun' & [Hp _] & _).
+    rewrite Hrun in Hrun'. injection Hrun' as <- <-.
+    rewrite Hrun in Hcl1, Hd, Hfl. cbn [fst snd] in Hcl1, Hd, Hfl.
+    rewrite run_wops_cons, Hrun. specialize (IH w1 (Cst_Good _ _ _ _ Hc1) Hcl1 Hrest ltac:(lia)).
+    destruct (run_wops rest w1) as [os w2]. cbn [fst snd] in *. rewrite steps_of_cons.
+    cbn [seg_applies s_op s_obs set_ext_at_rest]. rewrite Hp, Hrun. cbn [is_none andb fst snd].
+    destruct o as [p|data sizes|p| | |n| |xs|st o|o]; cbn [c06_op dirty_after] in *; try contradiction;
+      try (rewrite Hd in IH; cbn [negb] in IH; tauto);
+      try (rewrite <- Hd; tauto).
+    destruct (Hfl eq_refl) as [-> ->]. cbn [is_none N.eqb andb]. rewrite Hd in IH. cbn [negb] in IH. tauto.
+  - rewrite run_wops_cons, (run_op_bnd o w Hx).
+    specialize (IH (bnd_apply o w) (bnd_apply_Good o w Hx HG) (bnd_apply_clean o w Hx Hcl) Hrest).
+    destruct (run_wops rest (bnd_apply o w)) as [os w2] eqn:E2. cbn [fst snd] in *. rewrite steps_of_cons.
+    cbn [seg_applies s_op s_obs set_ext_at_rest observe o_panic is_none andb].
+    rewrite (run_op_bnd o w Hx). cbn [fst snd].
+    destruct o as [p|data sizes|p| | |n| |xs|st o|o]; cbn [bnd_op bnd_apply op_cost] in *; try contradiction.
+    + change (w_dirty (set_extensions xs w)) with (w_dirty w) in IH.
+      change (w_buf (set_extensions xs w)) with (w_buf w) in IH. specialize (IH ltac:(lia)).
+      rewrite (at_rest_iff w Hcl). replace (len xs <=? 1) with true by lia.
+      destruct (w_dirty w); cbn [negb andb] in *; [split; [discriminate|intros [H _]; discriminate]|tauto].
+    + change (w_dirty (reset_op o w)) with false in IH. change (w_buf (reset_op o w)) with (@nil byte) in IH.
+      rewrite len_nil in IH. specialize (IH ltac:(lia)). cbn [negb] in IH.
+      replace (o <? 16) with true by lia. cbn [andb]. tauto.
+Qed.
+
+(* ------------------------------------------------------------------ C06 with SetExtensions between messages and ResetOp *)
+Theorem c06_segments_hold ops w0 :
+  writer_inv w0 -> fresh_writer w0 -> w_op w0 < 16 -> masks_ok w0 ->
+  (w_exts w0 = [] \/ exists c, w_exts w0 = [c]) ->
+  Forall seg_op ops -> set_ext_at_rest ops w0 -> 28 + 4 * ops_cost ops <= max_int ->
+  c06_segments_monitor (client_side (w_state w0)) (w_op w0) (w_exts w0) (w_buflen w0)
+    (steps_of ops (fst (run_wops ops w0))) (dest_log (w_dest (snd (run_wops ops w0)))) = true.
+Proof.
+  intros Hi [F1 F2 F3 F4 F5 F6 F7] Ho Hm Hx Hops Hrest Hbud.
+  assert (Hlen: len (w_exts w0) <= 1) by (destruct Hx as [-> |[c ->]]; cbn; lia).
+  assert (HG: Good w0).
+  { constructor; try assumption. split; [assumption|]. split; [rewrite F1; constructor|assumption]. }
+  unfold c06_segments_monitor, c06_segments_apply, c06_segments_verdict.
+  replace (len (w_exts w0) <=? 1) with true by lia. cbn [andb].
+  apply andb_true_intro. split.
+  - pose proof (applies_iff ops w0 HG) as H. rewrite F2 in H. apply H; try assumption.
+    + intros _. split; assumption.
+    + rewrite F1, len_nil. lia.
+  - pose proof (seg_run (length ops) ops w0 (w_exts w0) (le_n _) HG) as H.
+    unfold dest_ncalls in H. rewrite F6 in H. apply H; try assumption; try reflexivity.
+    constructor; assumption.
+Qed.
+
+(* the side conditions are not a restriction on the model side: for EVERY history over the
+   extended alphabet they hold of the model's observations exactly when every
+   SetExtensions finds the model writer at rest; so whenever the segmentation applies
+   to what the model shows, its verdict is true *)
+Theorem c06_segments_apply_iff ops w0 :
+  writer_inv w0 -> fresh_writer w0 -> w_op w0 < 16 -> masks_ok w0 ->
+  (w_exts w0 = [] \/ exists c, w_exts w0 = [c]) ->
+  Forall seg_op ops -> 28 + 4 * ops_cost ops <= max_int ->
+  (c06_segments_apply (w_exts w0) (steps_of ops (fst (run_wops ops w0))) = true <-> set_ext_at_rest ops w0).
+Proof.
+  intros Hi [F1 F2 F3 F4 F5 F6 F7] Ho Hm Hx Hops Hbud.
+  assert (Hlen: len (w_exts w0) <= 1) by (destruct Hx as [-> |[c ->]]; cbn; lia).
+  assert (HG: Good w0).
+  { constructor; try assumption. split; [assumption|]. split; [rewrite F1; constructor|assumption]. }
+  unfold c06_segments_apply. replace (len (w_exts w0) <=? 1) with true by lia. cbn [andb].
+  pose proof (applies_iff ops w0 HG) as H. rewrite F2 in H. apply H; try assumption.
+  - intros _. split; assumption.
+  - rewrite F1, len_nil. lia.
+Qed.
